@@ -101,11 +101,11 @@ enum Call {
 
 fn alphabet() -> Vec<Call> {
     let mut v: Vec<Call> = BASES.iter().map(|b| Call::B(*b)).collect();
-    for inner in [ParseOk, SharedRc, FailInRcContext, MissingField, VisitorPanics, IterAbandon, SerAnchors, BudgetBreach] {
+    for inner in [ParseOk, SharedRc, FailInRcContext, MissingField, VisitorPanics, IterAbandon, SerAnchors, BudgetBreach, RootStaticError] {
         v.push(Call::Nested(Outer::Before, inner));
         v.push(Call::Nested(Outer::Missing, inner));
     }
-    for inner in [ParseOk, SharedRc, MissingField, SerAnchors] {
+    for inner in [ParseOk, SharedRc, MissingField, SerAnchors, RootStaticError] {
         v.push(Call::Nested(Outer::Unknown, inner));
     }
     for inner in [ParseOk, SharedRc, SerAnchors] {
@@ -898,14 +898,14 @@ impl Property for C15 {
         let mut s = a.clone();
         s.sort();
         s.dedup();
-        if s.len() != a.len() || a.len() != 49 {
-            return Err(format!("alphabet has {} symbols ({} distinct), expected 49", a.len(), s.len()));
+        if s.len() != a.len() || a.len() != 52 {
+            return Err(format!("alphabet has {} symbols ({} distinct), expected 52", a.len(), s.len()));
         }
         // (the exact-limit calls check themselves: their isolated observation must contain
         // "at-limit: OK" and "below: ERR")
         Ok(())
     }
-    /// libFuzzer input: a history of up to 12 calls, one byte per call over the 49-call alphabet
+    /// libFuzzer input: a history of up to 12 calls, one byte per call over the 52-call alphabet
     fn fuzz_decode(data: &[u8]) -> Option<(&'static str, Case, bool)> {
         let alpha = alphabet();
         let calls: Vec<Call> = data.iter().take(12).map(|x| alpha[*x as usize % alpha.len()]).collect();
